@@ -8,8 +8,9 @@ import (
 
 // capability represents a known-safe attribute access after a `has` guard.
 type capability struct {
-	varName types.String // variable or expression identity
-	attr    types.String // attribute name
+	varName types.String // variable or expression identity (see exprCapName)
+	attr    types.String // attribute name, or tag key when tag is set
+	tag     bool         // granted by hasTag (a tag) rather than by has (an attribute)
 }
 
 // capabilitySet tracks which attributes are safe to access.
